@@ -387,7 +387,8 @@ theorem parsePi_sf {s : Stream} (hs : SOk txt s) (hp : s.startsWith Lit.piStart 
     apply sf_bind_lift _ _ _ _ _ (consumeName_spec T txt hs1).post
     rintro ⟨s2, target⟩ ⟨h2, _, _, t2, _⟩
     simp only at h2 t2 ⊢
-    have h3 := skipSpaces_step T hT h2.2
+    apply sf_bind_lift _ _ _ _ _ (declConsumeSpaces_spec T hT txt h2.2).post
+    intro s3 h3
     obtain ⟨sp, t3⟩ := adv_took h3.1
     apply sf_bind_lift _ _ _ _ _ (consumeChars_spec T txt _ h3.2).post
     rintro ⟨s4, content⟩ ⟨h4, _, _, t4⟩
